@@ -31,10 +31,11 @@ const (
 	bArr
 	bTime
 	bMap
+	bCtx     // the value of the `ctx` keyword: the context the evaluation runs under
 	bUnknown // a value the model does not want to reason about
 )
 
-var bKindNames = [...]string{"null", "bool", "number", "string", "array", "time", "map", "unknown"}
+var bKindNames = [...]string{"null", "bool", "number", "string", "array", "time", "map", "context", "unknown"}
 
 type BV struct {
 	K bKind
@@ -77,6 +78,8 @@ func (v BV) String() string {
 		return "[" + strings.Join(p, ",") + "]"
 	case bTime:
 		return "time(" + v.T.Format(time.RFC3339Nano) + ")"
+	case bCtx:
+		return "ctx"
 	case bMap:
 		keys := make([]string, 0, len(v.M))
 		for k := range v.M {
@@ -503,6 +506,9 @@ func matchesB(v BV, got interface{}) bool {
 	switch v.K {
 	case bNull:
 		return got == nil
+	case bCtx:
+		c, ok := got.(context.Context)
+		return ok && c != nil && c.Value(ctxKeyT{}) != nil // the caller's context carries the run's token
 	case bBool:
 		b, ok := got.(bool)
 		return ok && b == v.B
